@@ -234,7 +234,11 @@ def execute(plan: Dict[str, Any]) -> Dict[str, Any]:
                 allbits = srbits == d
                 seam.mode = "probe"
                 seam.requests.clear()
-                fmt.quantise(torch.zeros(3, dtype=torch.float32))
+                try:
+                    fmt.quantise(torch.zeros(3, dtype=torch.float32))
+                except Exception as e:
+                    raise Violation("neighbour", "quantise_raised",
+                                    f"E{E}M{M} srbits={sr}: {type(e).__name__}: {str(e)[:200]}")
                 if len(seam.requests) != 1:
                     if not seam.requests:
                         raise RuntimeError("quantise made no torch.randint request: seam not reachable")
@@ -279,6 +283,9 @@ def execute(plan: Dict[str, Any]) -> Dict[str, Any]:
                     except SeamShape as e:
                         raise Violation("independent_draws", "draw_shape_differs_from_input",
                                         f"input shape {(N, c)}, random request shape {e.args[0]}")
+                    except Exception as e:
+                        raise Violation("neighbour", "quantise_raised",
+                                        f"E{E}M{M} srbits={sr} inputs of class {op['cls']}: {type(e).__name__}: {str(e)[:200]}")
                     if len(seam.requests) != 1 or seam.requests[0][2] != (N, c) or \
                             seam.requests[0][:2] != (low, high):
                         raise Violation("independent_draws", "draw_shape_differs_from_input",
